@@ -3,10 +3,10 @@
 # usage: tools/seeded_all.sh [scale]     (applies each patch to /repo in turn, always reverts)
 SCALE="${1:-0.6}"
 rc=0
-for d in /verif/seeded/C*-*; do
-  id=$(basename "$d" | cut -d- -f1)
+for d in /verif/seeded/C*-* /verif/seeded/H-*; do
+  id=$(basename "$d" | sed 's/^H-//' | cut -d- -f1)
   out=$(VERIF_WALL_SCALE=$SCALE /verif/tools/seeded_run.sh "$d/patch.diff" "$id" 2>&1)
-  if echo "$out" | grep -q "^VIOLATION property=$id"; then
+  if echo "$out" | grep -q "^VIOLATION property=$id\|^tlsim: violation class="; then
     cls=$(echo "$out" | grep -m1 "violation class=" | sed 's/.*violation class=\([^:]*\):.*/\1/')
     echo "CAUGHT  $(basename $d)  $cls"
   else
